@@ -4,7 +4,7 @@
 // Real definitions:   type FxHashMap<K, V> = HashMap<K, V, BuildHasherDefault<FxHasher>>;
 //                     type FxHashSet<V>    = HashSet<V, BuildHasherDefault<FxHasher>>;
 // Verus has no model of `BuildHasherDefault`, so the hasher-builder is an opaque unit-like type
-// `FxBuildHasher` implementing `BuildHasher + Default` (exactly the two capabilities
+// `FxBuildHasher` implementing `BuildHasher + Default + Clone` (exactly the capabilities
 // `BuildHasherDefault<FxHasher>` has).  The maps / sets themselves are the REAL std types with
 // vstd's specifications.
 //
@@ -40,6 +40,12 @@ pub mod rustc_hash {
     impl Default for FxBuildHasher {
         #[verifier::external_body]
         fn default() -> FxBuildHasher { unimplemented!() }
+    }
+
+    // BuildHasherDefault<H> is Clone (a zero-sized value); needed for `HashSet<_, FxBuildHasher>: Clone`
+    impl Clone for FxBuildHasher {
+        #[verifier::external_body]
+        fn clone(&self) -> FxBuildHasher { unimplemented!() }
     }
 
     pub type FxHashSet<T> = HashSet<T, FxBuildHasher>;
